@@ -281,7 +281,7 @@ class ModelError(Exception):
 # guarding the real call: count `while` header executions (no timers)
 # ----------------------------------------------------------------------------------------
 _WHILE_LINES = None
-_guard_state = {'count': 0, 'budget': None, 'on': False}
+_guard_state = {'count': 0, 'budget': None, 'on': False, 'trips': 0}
 _TOOL = 3
 
 
@@ -312,6 +312,7 @@ def _line_cb(code, line):
         st['count'] += 1
         if st['budget'] is not None and st['count'] > st['budget']:
             st['on'] = False
+            st['trips'] += 1
             raise LoopBudgetExceeded(f'{os.path.basename(code.co_filename)}:{line} executed > {st["budget"]} times')
     return None
 
@@ -332,9 +333,11 @@ def _ensure_monitor():
 
 def guarded(fn, budget):
     """Run fn() counting while-header executions inside the package; abort deterministically
-    when the count exceeds `budget`.  Returns (result, count).  Exceptions propagate."""
+    when the count exceeds `budget`.  Returns (result, count).  Exceptions propagate.
+    Re-entrant: an inner guard's iterations also count towards the enclosing guard (safe_case puts one round every case)."""
     _ensure_monitor()
     st = _guard_state
+    prev = dict(st)
     st['count'] = 0
     st['budget'] = budget
     st['on'] = True
@@ -342,7 +345,14 @@ def guarded(fn, budget):
         r = fn()
         return r, st['count']
     finally:
-        st['on'] = False
+        inner, trips = st['count'], st['trips']
+        st.update(prev)
+        st['trips'] = trips
+        if prev['on']:
+            st['count'] = prev['count'] + inner
+            if st['budget'] is not None and st['count'] > st['budget']:
+                st['on'] = False
+                raise LoopBudgetExceeded(f'enclosing case executed > {st["budget"]} while-iterations inside the package')
 
 
 # ----------------------------------------------------------------------------------------
@@ -384,6 +394,9 @@ def jsonable(o):
     if isinstance(o, (str, int, bool)) or o is None:
         return o
     return repr(o)
+
+
+CASE_LOOP_BUDGET = {True: 4_000_000, False: 60_000_000}      # quick / thorough: while-header executions inside the package per case
 
 
 def _copy_arg(x):
@@ -429,9 +442,16 @@ def safe_case(fn):
                 if j < ctx.pool_cap:
                     ctx.pool[j] = (wrapper, tuple(_copy_arg(x) for x in a), {kk: _copy_arg(v) for kk, v in k.items()})
         try:
-            return fn(ctx, *a, **k)
+            # every case runs under a loop guard: no `while` loop of the package may spin for ever inside a check, whichever function it is in
+            # (once loops have been found spinning in this run the budget shrinks, so that a non-terminating change is reported in seconds)
+            return guarded(lambda: fn(ctx, *a, **k), max(150_000, CASE_LOOP_BUDGET[ctx.tier == 'quick'] // (1 + 6 * _guard_state['trips'])))[0]
         except (InfraError, KeyboardInterrupt):
             raise
+        except LoopBudgetExceeded as e:
+            # not caught by the case itself: report it as what it is - a call of the package that does not complete
+            ctx.fail('predicate', 'completes (a while-loop of the package exceeded the per-case iteration budget)', str(e).split(' executed')[0],
+                     dict(function=fn.__module__ + '.' + fn.__qualname__, args=jsonable(a), kwargs=jsonable(k)), str(e))
+            return None
         except Exception as e:
             ctx.harness_exceptions += 1
             where = _raised_in_package(e.__traceback__)
